@@ -44,9 +44,9 @@ def check(ctx):
 
 
 MANIFEST = {
-    "technique": "static analysis: type-resolved who-may-call rules on std::io::Read (callee, caller, buffer type) and on the row parser; all-paths field coverage of the encoders",
+    "technique": "static analysis: type-resolved who-may-call rules on std::io::Read (callee, caller, buffer type) and on the row parser; all-paths field coverage of the encoders; escape transducers and Hayson member guards for re-encode stability",
     "level": "Decides the chunking clause for all readers and all chunkings at once (the reader is only ever asked for exactly one byte through read_exact, "
-    "so no decoder state depends on how many bytes a read returned), and the 'lazy iterator yields the eager rows' clause as a structural identity "
+    "so no decoder state depends on how many bytes a read returned; the reader it is called on is the caller's own, not a buffering wrapper that would read ahead of the row handed out), and the 'lazy iterator yields the eager rows' clause as a structural identity "
     "(one row parser, one caller). Tests decode from in-memory cursors only.",
     "note": "Partial claim: fixed point of spellings and the look-ahead bound are not decided. Trusted: std's read_exact contract; rustc MIR.",
 }
